@@ -26,7 +26,7 @@ func (r *rs) lengthDomain(name string) {
 	if fn == nil {
 		return
 	}
-	g := cfgq.Of(c.Program, fn)
+	g := flow.GraphOf(c.Program, fn)
 	decodeInt := r.method("Decoder", "decodeInt")
 	if decodeInt == nil {
 		return
@@ -82,19 +82,27 @@ func (r *rs) lengthDomain(name string) {
 				site = allocSite{node: m, call: call, size: sz}
 				// a variable that holds the decoded length here: preferably one written in the size itself
 				core.Inspect(sz, func(x ast.Node) bool {
-					if id, ok := x.(*ast.Ident); ok {
-						if v, has := st.Env[core.ObjOf(info, id)]; has && v.Tok == lenTok {
-							site.holder = id
+					switch e := x.(type) {
+					case *ast.Ident, *ast.SelectorExpr:
+						if v := w.Eval(e.(ast.Expr), st); v.Tok == lenTok && site.holder == nil {
+							site.holder = e.(ast.Expr)
+							return false
 						}
 					}
 					return true
 				})
 				if site.holder == nil {
+					// deterministic choice among the variables that hold it: the first declared
+					var best types.Object
 					for o, v := range st.Env {
-						if v.Tok == lenTok && site.holder == nil {
-							site.holder = ast.NewIdent(o.Name())
-							info.Uses[site.holder] = o
+						if _, plain := o.(*types.Var); plain && v.Tok == lenTok && (best == nil || o.Pos() < best.Pos()) {
+							best = o
 						}
+					}
+					if best != nil {
+						id := ast.NewIdent(best.Name())
+						info.Uses[id] = best
+						site.holder = id
 					}
 				}
 				if as, ok := m.(*ast.AssignStmt); ok && len(as.Lhs) == 1 {
@@ -146,8 +154,13 @@ func (r *rs) lengthDomain(name string) {
 		return nil
 	}
 	neg := overlap(out["alloc"], ninf, -1)
-	c.Check("R3.length", name+"/alloc", as.Pos(), neg == nil && len(out["alloc"]) > 0,
-		fmt.Sprintf("the buffer allocation must be reached only for n >= 0 (reached for %s): a negative length is malformed input and has to yield an error (or nil for -1), not an allocation/index panic or an empty value", flow.SetString(out["alloc"])))
+	if len(out["alloc"]) == 0 {
+		// nothing recognised as the allocation sized by the decoded length: not a statement about the code
+		c.Undecidedf("R3.length", name+"/alloc", as.Pos(), "cannot find an allocation whose size is computed from the decoded length")
+	} else {
+		c.Check("R3.length", name+"/alloc", as.Pos(), neg == nil,
+			fmt.Sprintf("the buffer allocation must be reached only for n >= 0 (reached for %s): a negative length is malformed input and has to yield an error (or nil for -1), not an allocation/index panic or an empty value", flow.SetString(out["alloc"])))
+	}
 	c.Check("R3.length", name+"/nil", as.Pos(), flow.SameSet(out["nil"], []flow.Interval{{Lo: -1, Hi: -1}}),
 		fmt.Sprintf("`return nil, nil` must be reached exactly for n = -1 (reached for %s): otherwise the nil bulk/array is rejected, or a malformed length below -1 yields a value", flow.SetString(out["nil"])))
 	bad := overlap(out["error"], -1, math.MaxInt32)
@@ -340,7 +353,7 @@ func (r *rs) r4() {
 	c, info := r.c, r.info
 	// bulk body
 	if fn := r.method("Decoder", "decodeBulkBytes"); fn != nil {
-		g := cfgq.Of(c.Program, fn)
+		g := flow.GraphOf(c.Program, fn)
 		r.cur = fn.Decl.Body
 		// the buffer made for the decoded length was located by the length-domain walk (which knows, per
 		// path, which variable holds the decoded length)
@@ -363,7 +376,7 @@ func (r *rs) r4() {
 			}
 			bobj := flow.Obj(info, b["_b"])
 			rf := flow.FindCalls(fn.Decl.Body, func(call *ast.CallExpr) bool {
-				return core.IsFunc(core.CalleeFunc(info, call), "io", "", "ReadFull") && len(call.Args) == 2 && r.isField(call.Args[0], "Decoder", "r") && flow.IsObj(info, bobj)(call.Args[1])
+				return r.isReadFull(call) && r.isField(call.Args[0], "Decoder", "r") && flow.IsObj(info, bobj)(call.Args[1])
 			})
 			if len(rf) != 1 || bobj == nil {
 				c.Undecidedf("R4.term", "decodeBulkBytes/crlf", mk.Pos(), "cannot find io.ReadFull(d.r, b)")
@@ -380,7 +393,7 @@ func (r *rs) r4() {
 						continue
 					}
 					k++
-					buf := flow.NewBuffer(info, fn.Decl.Body, bobj, site.size)
+					buf := flow.NewBuffer(info, fn.Decl.Body, bobj, site.size).WithFiles(r.pk.Syntax)
 					opq := flow.Opaque(g, buf.Understood, bobj)
 					for _, t := range []struct {
 						off  int64
@@ -407,7 +420,7 @@ func (r *rs) r4() {
 	r.line("decodeSingleLineBulkBytesArray", false)
 	// integers
 	if fn := r.method("Decoder", "decodeInt"); fn != nil {
-		g := cfgq.Of(c.Program, fn)
+		g := flow.GraphOf(c.Program, fn)
 		_, b := pat.Stmt("_b, _err = _d.decodeText()").Find(info, fn.Decl.Body, nil)
 		var as ast.Node
 		if b != nil {
@@ -450,7 +463,7 @@ func (r *rs) line(name string, returnsPrefix bool) {
 	if fn == nil {
 		return
 	}
-	g := cfgq.Of(c.Program, fn)
+	g := flow.GraphOf(c.Program, fn)
 	r.cur = fn.Decl.Body
 	as, b := pat.Stmt("_b, _err = _d.r.ReadBytes(_delim)").Find(info, fn.Decl.Body, nil)
 	if as == nil {
@@ -467,7 +480,7 @@ func (r *rs) line(name string, returnsPrefix bool) {
 		c.Undecidedf("R4.term", name+"/crlf", as.Pos(), "the line is not bound to a variable")
 		return
 	}
-	buf := flow.NewBuffer(info, fn.Decl.Body, bobj, nil)
+	buf := flow.NewBuffer(info, fn.Decl.Body, bobj, nil).WithFiles(r.pk.Syntax)
 	opq := flow.Opaque(g, buf.Understood, bobj)
 	ap, _ := flow.PointOf(g, as)
 	k := 0
@@ -516,7 +529,7 @@ func (r *rs) r5enc(name string) {
 	if fn == nil || encodeInt == nil {
 		return
 	}
-	g := cfgq.Of(c.Program, fn)
+	g := flow.GraphOf(c.Program, fn)
 	v := param(info, fn, 0)
 	if v == nil {
 		c.Undecidedf("R5.nil", name+"/arms", fn.Decl.Pos(), "no value parameter")
